@@ -259,6 +259,20 @@ def dispatchC08 : Dispatch := fun op args =>
       let tok := fun (p : Params) => s!"{commas (paramsTok p)} 1 1 1 | {natToHex v} {natToHex (v * v % m)} {commas (paramsTok p)}"
       some (tok (paramsNew (toLimbs n m)) ++ " ;; " ++ tok (paramsSpec n m))
     | _, _, _, _, _ => badArgs
+  | "c08.mmseq", [_kind, n, m, x, y, ops] =>
+    -- a sequence of multiplications / squarings on ONE multiplier object: after every operation the accumulator is the
+    -- canonical representative of the running product (value v, Montgomery representation v·R mod m)
+    match n.toNat?, hexToNat? m, hexToNat? x, hexToNat? y with
+    | some n, some m, some x, some y =>
+      if m % 2 = 0 ∨ m = 0 then badArgs else
+      let R := B ^ n
+      let step := fun (acc : Nat × List String) (c : Char) =>
+        let v := if c = 'm' then acc.1 * (y % m) % m else acc.1 * acc.1 % m
+        (v, acc.2 ++ [s!"{natToHex v}/{natToHex (v * R % m)}"])
+      let r := ops.toList.foldl step (x % m, [])
+      let t := " ".intercalate r.2
+      some (t ++ " ;; " ++ t)
+    | _, _, _, _ => badArgs
   | "c08.params_eq_const", [n, m] =>
     match n.toNat?, hexToNat? m with
     | some n, some m =>
